@@ -98,6 +98,50 @@ Theorem C03_vm_error_only_outer_effects : forall o ev pre frame post d,
 Proof. exact vm_error_only_outer_effects. Qed.
 Print Assumptions C03_vm_error_only_outer_effects.
 
+(* ALL CALL TREES.  [compile] is how the EVM interpreter drives the StateDB for a tree of call frames (Snapshot on entry,
+   RevertToSnapshot(own id) when the frame fails, arbitrary nesting; plain operations = writes of any module made through
+   the current context, events and every side-state change).  Running any tree on any reachable state and committing:
+   the original context receives exactly the writes of the operations whose own frame and all frames around it
+   completed, in program order (plus the commit's destroy loop), the side state (logs, refund, access list, transient
+   storage, self-destruct marks, touched) and the events are those of the kept operations alone.  Everything done below a
+   frame that failed - at any depth, in any module - has left no trace, and everything else is kept. *)
+Theorem C03_call_tree_commit : forall s items dl, wf s -> committed s = false -> plain_list items = true ->
+  let ops := fst (compile_list (depth s) items) in
+  let r := step (run s ops) (Commit dl) in
+  snd r = OutOk /\
+  (forall k, orig (fst r) k = kv_over dl (apply_writes (kept_list items) (view s)) k) /\
+  cur (fst r) = side_run (kept_list items) (cur s) /\
+  orig_ev (fst r) = events s ++ emitted (kept_list items).
+Proof. exact call_tree_commit. Qed.
+Print Assumptions C03_call_tree_commit.
+
+(* at every point of the execution (not only after commit): what any keeper reads through GetCurrentContext() and every
+   getter of the StateDB after a subtree has run is what the kept operations alone produce *)
+Theorem C03_call_tree_view : forall t d, plain_tree t = true -> forall s, wf s -> depth s = d ->
+  depth (run s (fst (compile d t))) = snd (compile d t) /\
+  (forall k, view (run s (fst (compile d t))) k = apply_writes (kept t) (view s) k) /\
+  cur (run s (fst (compile d t))) = side_run (kept t) (cur s) /\
+  events (run s (fst (compile d t))) = events s ++ emitted (kept t).
+Proof. exact compile_effect. Qed.
+Print Assumptions C03_call_tree_view.
+
+(* the oracle of the `statedb` driver's tree half: a transaction and its "survivors only" twin (every failing frame cut
+   out) commit the same store, side state and events *)
+Theorem C03_survivors_only_twin : forall s items dl, wf s -> committed s = false -> plain_list items = true ->
+  let ra := step (run s (fst (compile_list (depth s) items))) (Commit dl) in
+  let rb := step (run s (fst (compile_list (depth s) (prune_list items)))) (Commit dl) in
+  (forall k, orig (fst ra) k = orig (fst rb) k) /\ cur (fst ra) = cur (fst rb) /\ orig_ev (fst ra) = orig_ev (fst rb).
+Proof. exact survivors_only_twin. Qed.
+Print Assumptions C03_survivors_only_twin.
+
+(* the interpreter's discipline assumed by C03_revert_exact holds for every compiled tree: no Commit inside, reverts only
+   to ids at or above the enclosing frame's *)
+Theorem C03_compiled_trees_are_disciplined : forall l d, plain_list l = true ->
+  no_commit (fst (compile_list d l)) /\ (d <= snd (compile_list d l))%nat /\
+  reverts_ge (Z.of_nat d - 1) (fst (compile_list d l)).
+Proof. exact compile_list_static. Qed.
+Print Assumptions C03_compiled_trees_are_disciplined.
+
 (* non-vacuity: a reachable state with nested frames; the frame really changes every component before
    it is reverted; hypotheses hold; out-of-discipline ids panic *)
 Definition ex_o : kv := fun k => if k =? 7 then Some 70 else None.
@@ -121,3 +165,21 @@ Proof.
   split; [repeat constructor|]. split; [repeat constructor; cbn; auto; discriminate|].
   vm_compute. repeat split; reflexivity.
 Qed.
+
+(* a call tree: the precompile-like write of key 5 and the refund made in the frame that fails (nested two deep, with a
+   completing frame inside it) vanish; the same write repeated in completing frames is kept *)
+Definition ex_tree : list citem :=
+  [CI (KvSet 5 1);
+   CF false [CI (KvSet 5 2); CI (AddRefund 7); CI (EmitEvent 3); CF true [CI (KvSet 6 9); CI (AddLog 4)]];
+   CF true [CI (KvSet 5 3); CF false [CI (KvDel 5); CI (TsSet 1 1 1)]; CI (AlAddSlot 2 2)];
+   CI (EmitEvent 8)].
+Example C03_example_tree :
+  plain_list ex_tree = true /\
+  kept_list ex_tree = [KvSet 5 1; KvSet 5 3; AlAddSlot 2 2; EmitEvent 8] /\
+  (let r := fst (step (run ex_s (fst (compile_list (depth ex_s) ex_tree))) (Commit [])) in
+   orig r 5 = Some 3 /\ orig r 6 = None /\ orig r 7 = Some 70 /\ refund (cur r) = 5 /\ logs (cur r) = [] /\
+   transient (cur r) = [] /\ al_slots (cur r) = [(2, 2)] /\ orig_ev r = [1; 8]) /\
+  fst (compile_list 2 ex_tree) =
+    [KvSet 5 1; Snapshot; KvSet 5 2; AddRefund 7; EmitEvent 3; Snapshot; KvSet 6 9; AddLog 4; RevertTo 1;
+     Snapshot; KvSet 5 3; Snapshot; KvDel 5; TsSet 1 1 1; RevertTo 3; AlAddSlot 2 2; EmitEvent 8].
+Proof. vm_compute. repeat split; reflexivity. Qed.
